@@ -5,7 +5,7 @@ ALPHA = [0.0, 1.0, 2.0, 3.0, -1.0, -2.0, 0.5]
 
 
 def series(rng, n, kind=None):
-    kind = kind or rng.choice(["alpha", "alpha", "dyadic", "gauss", "flat", "mono", "neg", "big"])
+    kind = kind or rng.choice(["alpha", "alpha", "dyadic", "gauss", "flat", "mono", "neg", "big", "small"])
     if kind == "alpha":
         return [rng.choice(ALPHA) for _ in range(n)]
     if kind == "dyadic":
@@ -27,6 +27,8 @@ def series(rng, n, kind=None):
         return [-abs(rng.gauss(2, 1)) - 0.25 for _ in range(n)]
     if kind == "big":
         return [rng.uniform(-1e3, 1e3) for _ in range(n)]
+    if kind == "small":
+        return [rng.gauss(0, 0.05) for _ in range(n)]
     raise ValueError(kind)
 
 
